@@ -86,25 +86,36 @@ def perfect_cases(draw, tier):
 
 
 def reachable_tp(kx, ex, dx, t):
-    """All TP counts reachable by the greedy matcher over every resolution of exact nearest ties."""
+    """All TP counts reachable by the greedy matcher over every resolution of exact nearest ties
+    (iterative; it only branches where two knees are exactly equally near)."""
     results = set()
-    competed = [False]
-
-    def go(i, used, tp):
-        if i == len(ex):
-            results.add(tp)
-            return
-        d = [math.fabs(k - ex[i]) / dx for k in kx]
-        mn = min(d)
-        for j in [j for j, v in enumerate(d) if v == mn]:
+    competed = False
+    kxa = np.asarray(kx, dtype=float)
+    stack = [(0, set(), 0)]
+    while stack:
+        i, used, tp = stack.pop()
+        while i < len(ex):
+            d = np.fabs(kxa - ex[i]) / dx
+            mn = d.min()
+            ties = np.flatnonzero(d == mn)
+            for j in ties[1:]:                   # alternative resolutions of an exact tie
+                j = int(j)
+                if d[j] <= t and j not in used:
+                    stack.append((i + 1, used | {j}, tp + 1))
+                else:
+                    competed |= bool(j in used and d[j] <= t)
+                    stack.append((i + 1, set(used), tp))
+            j = int(ties[0])
             if d[j] <= t and j not in used:
-                go(i + 1, used | {j}, tp + 1)
-            else:
-                if j in used and d[j] <= t:
-                    competed[0] = True
-                go(i + 1, used, tp)
-    go(0, frozenset(), 0)
-    return results, competed[0]
+                used.add(j)
+                tp += 1
+            elif j in used and d[j] <= t:
+                competed = True
+            i += 1
+        results.add(tp)
+        if len(results) > 64 or len(stack) > 4096:
+            break
+    return results, competed
 
 
 def nn_range(a, b, f):
@@ -218,7 +229,35 @@ def oracle(case, rec):
             rec.check(v == 0, fname + ':nonzero-when-E-is-exactly-the-knee-points', v)
 
 
+@st.composite
+def big_cases(draw, tier):
+    """More than 4096 points on the iterated side of the nearest-neighbour scores."""
+    n = draw(st.sampled_from([9000, 12000, 20000]))
+    a = draw(st.sampled_from([5.0, 40.0]))
+    side = draw(st.sampled_from(['expected', 'knees']))
+    big = draw(st.sampled_from([4097, 5000, 6000]))
+    small = draw(st.integers(3, 40))
+    return {'family': 'big', 'n': n, 'a': a, 'side': side, 'big': big, 'small': small,
+            'strategy': draw(st.sampled_from(STRATS)), 'dy': draw(st.sampled_from([0.0, 0.5, 3.0]))}
+
+
+def oracle_big(case, rec):
+    n = case['n']
+    x = np.arange(1, n + 1, dtype=float)
+    pts = [[float(v), float(1000.0 * case['a'] / (v + case['a']))] for v in x]
+    nk = case['big'] if case['side'] == 'knees' else case['small']
+    ne = case['big'] if case['side'] == 'expected' else case['small']
+    knees = [int(v) for v in np.linspace(1, n - 2, nk).astype(int)]
+    knees = sorted(set(knees))
+    eidx = np.linspace(2, n - 3, ne).astype(int)
+    expected = [[pts[i][0] + 0.25, pts[i][1] + case['dy']] for i in eidx]
+    full = {'family': 'big', 'pts': pts, 'knees': knees, 'expected': expected, 't': 0.0001,
+            'strategy': case['strategy'], 'perfect': False, 'int_points': False}
+    oracle(full, rec)
+
+
 SUBS = [
+    Sub('big', oracle_big, strategy=big_cases, budget={'quick': 24, 'thorough': 240}),
     Sub('scores', oracle, strategy=cases, budget={'quick': 9600, 'thorough': 160000}, fuzz={'thorough': 20000}),
     Sub('perfect', oracle, strategy=perfect_cases, budget={'quick': 1600, 'thorough': 32000}),
 ]
